@@ -354,7 +354,7 @@ def main_check(mod_name: str, args) -> int:
     wall_s = time.monotonic() - t0
     try:
         ev = _evidence.build(mod, agg, tier=tier, seed=base_seed, wall_s=wall_s, n_viol=n_viol, reported=reported, known=list(known_hits.values()))
-        if hasattr(mod, "check_reach") and exit_code == 0:
+        if hasattr(mod, "check_reach") and exit_code == 0 and not os.environ.get("VERIF_SUBBATCH"):
             missing = mod.check_reach(agg, tier)
             if missing:
                 print(f"HARNESS-ERROR property={prop} REACH-ZERO {missing}")
